@@ -354,3 +354,748 @@ Proof.
   - apply NoDup_map_filter. exact Hu.
   - intros r Hr Hid. apply filter_In in Hr. apply (unique_same_id (rows s)); try assumption. apply Hr.
 Qed.
+
+(* ---------------- pass 2: files against rows ---------------- *)
+Lemma unknown_file_spec known x :
+  unknown_file known x = negb (existsb (Z.eqb (f_id x)) known) && negb (f_db x).
+Proof. reflexivity. Qed.
+
+Lemma file_removed_true known x : file_removed true known x = unknown_file known x.
+Proof.
+  unfold file_removed. rewrite bridge_g_fix_unknown, bridge_repair_unknown. cbn [removes_file].
+  rewrite !andb_true_r. reflexivity.
+Qed.
+Lemma file_removed_false known x : file_removed false known x = false.
+Proof. unfold file_removed. rewrite bridge_g_fix_unknown, andb_false_r. reflexivity. Qed.
+
+Lemma scan_false known l : fst (scan_files false known l) = l.
+Proof.
+  unfold scan_files. cbn [fst]. rewrite <- (filter_true l) at 2. apply filter_ext.
+  intros x. rewrite file_removed_false. reflexivity.
+Qed.
+Lemma scan_true known l : fst (scan_files true known l) = filter (fun x => negb (unknown_file known x)) l.
+Proof. unfold scan_files. cbn [fst]. apply filter_ext. intros x. rewrite file_removed_true. reflexivity. Qed.
+
+Lemma map_id_in {A} (f : A -> A) l : (forall x, f x = x) -> map f l = l.
+Proof. intros H. induction l as [|a l IH]; cbn [map]; [reflexivity|]. rewrite H, IH. reflexivity. Qed.
+
+Lemma unknown_d2_false known d : fst (unknown_d2 false known d) = d.
+Proof. unfold unknown_d2. cbn [fst]. rewrite scan_false. destruct d; reflexivity. Qed.
+Lemma unknown_d1_false known d : fst (unknown_d1 false known d) = d.
+Proof.
+  unfold unknown_d1. cbn [fst]. rewrite scan_false, map_map, map_id_in; [destruct d; reflexivity|].
+  intros x. apply unknown_d2_false.
+Qed.
+Lemma pass_unknown_false known t : fst (pass_unknown false known t) = t.
+Proof.
+  unfold pass_unknown. cbn [fst]. rewrite scan_false, map_map, map_id_in; [destruct t; reflexivity|].
+  intros x. apply unknown_d1_false.
+Qed.
+
+Lemma map_flat_map {A B C} (f : B -> C) (g : A -> list B) l : map f (flat_map g l) = flat_map (fun x => map f (g x)) l.
+Proof. induction l as [|a l IH]; cbn [flat_map map]; [reflexivity|]. rewrite map_app, IH. reflexivity. Qed.
+Lemma flat_map_map {A B C} (f : A -> B) (g : B -> list C) l : flat_map g (map f l) = flat_map (fun x => g (f x)) l.
+Proof. induction l as [|a l IH]; cbn [flat_map map]; [reflexivity|]. rewrite IH. reflexivity. Qed.
+
+Definition unknown_warns (known : list Z) (l : list file) : list warning :=
+  map (fun x => WUnknown (f_id x)) (filter (unknown_file known) l).
+
+Lemma unknown_warns_app known a b : unknown_warns known (a ++ b) = unknown_warns known a ++ unknown_warns known b.
+Proof. unfold unknown_warns. rewrite filter_app, map_app. reflexivity. Qed.
+Lemma unknown_warns_flat {A} known (g : A -> list file) l :
+  unknown_warns known (flat_map g l) = flat_map (fun x => unknown_warns known (g x)) l.
+Proof. unfold unknown_warns. rewrite filter_flat_map, map_flat_map. reflexivity. Qed.
+
+Lemma unknown_d2_warns fx known d : snd (unknown_d2 fx known d) = unknown_warns known (d2_files d).
+Proof. reflexivity. Qed.
+Lemma unknown_d1_warns fx known d : snd (unknown_d1 fx known d) = unknown_warns known (d1_all_files d).
+Proof.
+  unfold unknown_d1, d1_all_files. cbn [snd]. destruct bridge_walks as [Hw _]. rewrite Hw. cbn [ord].
+  rewrite unknown_warns_app, unknown_warns_flat, flat_map_map. reflexivity.
+Qed.
+Lemma pass_unknown_warns fx known t : snd (pass_unknown fx known t) = unknown_warns known (all_files t).
+Proof.
+  unfold pass_unknown, all_files. cbn [snd]. destruct bridge_walks as [Hw _]. rewrite Hw. cbn [ord].
+  rewrite unknown_warns_app, unknown_warns_flat, flat_map_map.
+  assert (E : snd (scan_files fx known [db_file]) = []).
+  { unfold scan_files. cbn [snd filter]. rewrite unknown_file_spec. cbn [db_file f_db negb]. rewrite andb_false_r. reflexivity. }
+  rewrite E. cbn [app]. f_equal. apply flat_map_ext. intros d. apply unknown_d1_warns.
+Qed.
+
+Definition kept (known : list Z) (l : list file) : list file := filter (fun x => negb (unknown_file known x)) l.
+
+Lemma unknown_d2_true known d : fst (unknown_d2 true known d) = {| d2_id := d2_id d; d2_files := kept known (d2_files d) |}.
+Proof. unfold unknown_d2. cbn [fst]. rewrite scan_true. reflexivity. Qed.
+Lemma unknown_d1_true known d :
+  fst (unknown_d1 true known d) =
+  {| d1_id := d1_id d; d1_files := kept known (d1_files d);
+     d1_subs := map (fun x => {| d2_id := d2_id x; d2_files := kept known (d2_files x) |}) (d1_subs d) |}.
+Proof.
+  unfold unknown_d1. cbn [fst]. rewrite scan_true, map_map. f_equal. apply map_ext. intros x. apply unknown_d2_true.
+Qed.
+Definition clean_d2 known (x : dir2) : dir2 := {| d2_id := d2_id x; d2_files := kept known (d2_files x) |}.
+Definition clean_d1 known (d : dir1) : dir1 :=
+  {| d1_id := d1_id d; d1_files := kept known (d1_files d); d1_subs := map (clean_d2 known) (d1_subs d) |}.
+Definition clean_fs known (t : fs) : fs :=
+  {| root_files := kept known (root_files t); root_subs := map (clean_d1 known) (root_subs t) |}.
+
+Lemma pass_unknown_true known t : fst (pass_unknown true known t) = clean_fs known t.
+Proof.
+  unfold pass_unknown, clean_fs. cbn [fst]. rewrite scan_true, map_map. f_equal. apply map_ext. intros d.
+  apply unknown_d1_true.
+Qed.
+
+Lemma clean_all_files known t : all_files (clean_fs known t) = kept known (all_files t).
+Proof.
+  unfold all_files, clean_fs, kept. cbn [root_files root_subs]. rewrite filter_app, filter_flat_map, flat_map_map.
+  f_equal. apply flat_map_ext. intros d. unfold d1_all_files, clean_d1. cbn [d1_files d1_subs].
+  rewrite filter_app, filter_flat_map, flat_map_map. reflexivity.
+Qed.
+
+(* ---------------- pass 3: empty directories ---------------- *)
+Definition e2 (d : dir2) : list Z := if is_nil (d2_files d) then [d2_id d] else [].
+Definition e1 (d : dir1) : list Z :=
+  if is_nil (d1_subs d) && is_nil (d1_files d) then [d1_id d] else flat_map e2 (d1_subs d).
+Definition empty_dirs (t : fs) : list Z := flat_map e1 (root_subs t).
+
+Lemma empty_d2_warns rep fx d : snd (empty_d2 rep fx d) = map WEmptyDir (e2 d).
+Proof.
+  unfold empty_d2, e2. rewrite bridge_g_empty_dir. cbn [is_nil andb]. destruct (is_nil (d2_files d)); reflexivity.
+Qed.
+Lemma empty_d1_warns rep fx d : snd (empty_d1 rep fx d) = map WEmptyDir (e1 d).
+Proof.
+  unfold empty_d1, e1. rewrite bridge_g_empty_dir. destruct (is_nil (d1_subs d) && is_nil (d1_files d)); [reflexivity|].
+  cbn [snd]. destruct bridge_walks as [_ Hw]. rewrite Hw. cbn [ord app].
+  rewrite flat_map_map, map_flat_map. apply flat_map_ext. intros x. apply empty_d2_warns.
+Qed.
+Lemma pass_empty_warns rep fx t : snd (pass_empty rep fx t) = map WEmptyDir (empty_dirs t).
+Proof.
+  unfold pass_empty, empty_dirs. cbn [snd]. destruct bridge_walks as [_ Hw]. rewrite Hw. cbn [ord].
+  rewrite bridge_g_empty_dir. cbn [is_nil]. rewrite andb_false_r. cbn [app].
+  rewrite flat_map_map, map_flat_map. apply flat_map_ext. intros x. apply empty_d1_warns.
+Qed.
+
+Lemma keep_all {A} (f : A -> option A * list warning) l : (forall x, fst (f x) = Some x) -> keep (map f l) = l.
+Proof.
+  intros H. unfold keep. induction l as [|a l IH]; cbn [map flat_map]; [reflexivity|].
+  rewrite H, IH. reflexivity.
+Qed.
+
+Lemma empty_d2_false rep d : fst (empty_d2 rep false d) = Some d.
+Proof.
+  unfold empty_d2. rewrite bridge_g_fix_empty. cbn [andb]. destruct (g_empty_dir _ _); reflexivity.
+Qed.
+Lemma empty_d1_false rep d : fst (empty_d1 rep false d) = Some d.
+Proof.
+  unfold empty_d1. rewrite bridge_g_fix_empty. cbn [andb]. destruct (g_empty_dir _ _); [reflexivity|].
+  cbn [fst]. rewrite keep_all; [destruct d; reflexivity|]. intros x. apply empty_d2_false.
+Qed.
+Lemma pass_empty_false rep t : fst (pass_empty rep false t) = t.
+Proof.
+  unfold pass_empty. cbn [fst]. rewrite keep_all; [destruct t; reflexivity|]. intros x. apply empty_d1_false.
+Qed.
+
+(* removed directories hold no files *)
+Lemma keep_d2_files rep fx l : flat_map d2_files (keep (map (empty_d2 rep fx) l)) = flat_map d2_files l.
+Proof.
+  unfold keep. induction l as [|a l IH]; cbn [map flat_map]; [reflexivity|].
+  rewrite flat_map_app', IH. f_equal. unfold empty_d2. rewrite bridge_g_empty_dir. cbn [is_nil andb].
+  destruct (d2_files a) eqn:Hf; cbn [is_nil fst].
+  - destruct (g_fix_empty fx && removes_dir rep); cbn [flat_map]; [reflexivity|]. rewrite Hf. reflexivity.
+  - cbn [flat_map]. rewrite Hf, app_nil_r. reflexivity.
+Qed.
+
+Lemma is_nil_true {A} (l : list A) : is_nil l = true -> l = [].
+Proof. destruct l; [reflexivity|discriminate]. Qed.
+
+Lemma empty_d1_files rep fx d :
+  flat_map d1_all_files (match fst (empty_d1 rep fx d) with Some x => [x] | None => [] end) = d1_all_files d.
+Proof.
+  unfold empty_d1. rewrite bridge_g_empty_dir.
+  destruct (is_nil (d1_subs d) && is_nil (d1_files d)) eqn:He.
+  - apply andb_prop in He. destruct He as [H1 H2]. apply is_nil_true in H1. apply is_nil_true in H2.
+    cbn [fst]. unfold d1_all_files. rewrite H1, H2.
+    destruct (g_fix_empty fx && removes_dir rep); cbn [flat_map app]; [reflexivity|].
+    unfold d1_all_files. rewrite H1, H2. reflexivity.
+  - cbn [fst].
+    destruct (g_fix_empty fx && prunes rep && is_nil (keep (map (empty_d2 rep fx) (d1_subs d))) && is_nil (d1_files d)) eqn:Hp.
+    + apply andb_prop in Hp. destruct Hp as [Hp H2]. apply andb_prop in Hp. destruct Hp as [_ H1].
+      apply is_nil_true in H1. apply is_nil_true in H2. cbn [flat_map]. unfold d1_all_files.
+      rewrite H2, <- (keep_d2_files rep fx), H1. reflexivity.
+    + cbn [flat_map]. rewrite app_nil_r. unfold d1_all_files. cbn [d1_files d1_subs]. rewrite keep_d2_files. reflexivity.
+Qed.
+
+Lemma pass_empty_files rep fx t : all_files (fst (pass_empty rep fx t)) = all_files t.
+Proof.
+  unfold pass_empty, all_files. cbn [fst root_files root_subs]. f_equal. unfold keep.
+  induction (root_subs t) as [|a l IH]; cbn [map flat_map]; [reflexivity|].
+  rewrite flat_map_app', IH, empty_d1_files. reflexivity.
+Qed.
+
+(* ---------------- passes 4, 5 and the whole check ---------------- *)
+Definition count_warn (s : state) : list warning :=
+  if s_count s =? row_count s then [] else [WCount (s_count s) (row_count s)].
+Definition size_warn (s : state) : list warning :=
+  if s_size s =? row_sum s then [] else [WSize (s_size s) (row_sum s)].
+
+Lemma pass_count_warns fx s : snd (pass_count fx s) = count_warn s.
+Proof. unfold pass_count, count_warn. rewrite bridge_g_count_wrong. destruct (s_count s =? row_count s); reflexivity. Qed.
+Lemma pass_size_warns fx s : snd (pass_size fx s) = size_warn s.
+Proof. unfold pass_size, size_warn. rewrite bridge_g_size_wrong. destruct (s_size s =? row_sum s); reflexivity. Qed.
+Lemma pass_count_false s : fst (pass_count false s) = s.
+Proof. unfold pass_count. destruct (g_count_wrong _ _); reflexivity. Qed.
+Lemma pass_size_false s : fst (pass_size false s) = s.
+Proof. unfold pass_size. destruct (g_size_wrong _ _); reflexivity. Qed.
+Lemma pass_count_true s :
+  fst (pass_count true s) = {| rows := rows s; s_count := row_count s; s_size := s_size s; tree := tree s |}.
+Proof.
+  unfold pass_count. rewrite bridge_g_count_wrong. destruct (s_count s =? row_count s) eqn:He; cbn [negb fst].
+  - apply Z.eqb_eq in He. rewrite <- He. destruct s; reflexivity.
+  - rewrite bridge_g_fix_count, bridge_repair_count. reflexivity.
+Qed.
+Lemma pass_size_true s :
+  fst (pass_size true s) = {| rows := rows s; s_count := s_count s; s_size := row_sum s; tree := tree s |}.
+Proof.
+  unfold pass_size. rewrite bridge_g_size_wrong. destruct (s_size s =? row_sum s) eqn:He; cbn [negb fst].
+  - apply Z.eqb_eq in He. rewrite <- He. destruct s; reflexivity.
+  - rewrite bridge_g_fix_size, bridge_repair_size. reflexivity.
+Qed.
+
+Lemma with_tree_same s : with_tree s (tree s) = s.
+Proof. destruct s; reflexivity. Qed.
+
+(* everything a plain check reports, read off the state *)
+Definition report (s : state) : list warning :=
+  flat_map (warn_row (tree s)) (rows s) ++ unknown_warns (filenames s) (all_files (tree s))
+  ++ map WEmptyDir (empty_dirs (tree s)) ++ count_warn s ++ size_warn s.
+
+Lemma check_with_false rep s : check_with rep s false = (s, report s).
+Proof.
+  unfold check_with. rewrite bridge_check_passes. cbn [fold_left run_pass c_s c_known c_warns app].
+  rewrite pass_rows_false, pass_unknown_false, with_tree_same, pass_empty_false, with_tree_same,
+          pass_count_false, pass_size_false.
+  rewrite pass_rows_warns, pass_unknown_warns, pass_empty_warns, pass_count_warns, pass_size_warns.
+  unfold report. rewrite <- !app_assoc. reflexivity.
+Qed.
+
+Lemma check1_false s : check1 s false = (s, report s).
+Proof. apply check_with_false. Qed.
+
+(* the state a fixing check leaves, and what it reports *)
+Definition after_rows (s : state) : state := fst (pass_rows true s).
+Definition fixed_tree (rep : fs_repair) (s : state) : fs := fst (pass_empty rep true (clean_fs (filenames s) (tree s))).
+Definition fixed (rep : fs_repair) (s : state) : state :=
+  {| rows := rows (after_rows s); s_count := row_count (after_rows s); s_size := row_sum (after_rows s);
+     tree := fixed_tree rep s |}.
+Definition report_fix (s : state) : list warning :=
+  flat_map (warn_row (tree s)) (rows s) ++ unknown_warns (filenames s) (all_files (tree s))
+  ++ map WEmptyDir (empty_dirs (clean_fs (filenames s) (tree s))) ++ count_warn (after_rows s) ++ size_warn (after_rows s).
+
+Lemma check_with_true rep s : check_with rep s true = (fixed rep s, report_fix s).
+Proof.
+  unfold check_with. rewrite bridge_check_passes. cbn [fold_left run_pass c_s c_known c_warns app].
+  rewrite pass_rows_warns, pass_unknown_warns, pass_empty_warns, pass_count_warns, pass_size_warns.
+  rewrite pass_size_true, pass_count_true. cbn [rows s_count s_size tree with_tree].
+  rewrite pass_unknown_true, pass_rows_tree.
+  unfold fixed, report_fix, fixed_tree, after_rows, count_warn, size_warn, row_count, row_sum.
+  cbn [rows s_count s_size tree with_tree]. rewrite <- !app_assoc. reflexivity.
+Qed.
+
+Lemma check1_true s : check1 s true = (fixed FsRmdir s, report_fix s).
+Proof. unfold check1. rewrite bridge_repair_empty. apply check_with_true. Qed.
+
+(* ---------------- what survives a fixing check ---------------- *)
+Lemma In_filenames s f : In f (filenames s) <-> exists r, In r (rows s) /\ r_file r = Some f.
+Proof.
+  unfold filenames. rewrite in_flat_map. split.
+  - intros [r [Hr Hf]]. exists r. split; [exact Hr|]. destruct (r_file r) as [g|]; [|destruct Hf].
+    destruct Hf as [Hf|[]]. subst. reflexivity.
+  - intros [r [Hr Hf]]. exists r. split; [exact Hr|]. rewrite Hf. left. reflexivity.
+Qed.
+
+Lemma fixed_all_files rep s : all_files (fixed_tree rep s) = kept (filenames s) (all_files (tree s)).
+Proof. unfold fixed_tree. rewrite pass_empty_files. apply clean_all_files. Qed.
+
+Lemma lookup_fixed rep s f : In f (filenames s) -> lookup_file (fixed_tree rep s) f = lookup_file (tree s) f.
+Proof.
+  intros Hf. unfold lookup_file. rewrite fixed_all_files. unfold kept. rewrite find_filter_keep; [reflexivity|].
+  intros x _ Hx. apply Z.eqb_eq in Hx. rewrite unknown_file_spec.
+  assert (E : existsb (Z.eqb (f_id x)) (filenames s) = true) by (apply existsb_Zeqb_In; rewrite Hx; exact Hf).
+  rewrite E. reflexivity.
+Qed.
+
+Lemma fixrow_shape t x r :
+  In r (fixrow t x) -> r_id r = r_id x /\ r_file r = r_file x /\
+  (forall f, r_file x = Some f -> lookup_file t f = Some (r_size r)).
+Proof.
+  unfold fixrow. destruct (r_file x) as [g|] eqn:Hg.
+  - destruct (lookup_file t g) as [real|] eqn:Hl; [|intros []].
+    destruct (r_size x =? real) eqn:He; intros [H|[]]; subst r.
+    + apply Z.eqb_eq in He. repeat split; [exact Hg|]. intros f Hf. injection Hf as Hf. rewrite <- Hf, He. exact Hl.
+    + cbn [set_size r_id r_file r_size]. repeat split; [exact Hg|]. intros f Hf. injection Hf as Hf. rewrite <- Hf. exact Hl.
+  - intros [H|[]]; subst r. repeat split; [exact Hg|]. intros f Hf. discriminate.
+Qed.
+
+Lemma fixed_rows rep s : rows_unique s -> rows (fixed rep s) = flat_map (fixrow (tree s)) (rows s).
+Proof. intros Hu. unfold fixed, after_rows. cbn [rows]. apply pass_rows_rows. exact Hu. Qed.
+
+(* C17_readable *)
+Lemma fixed_readable rep s : rows_unique s ->
+  forall r f, In r (rows (fixed rep s)) -> r_file r = Some f -> lookup_file (tree (fixed rep s)) f = Some (r_size r).
+Proof.
+  intros Hu r f Hr Hf. rewrite (fixed_rows rep s Hu) in Hr. apply in_flat_map in Hr. destruct Hr as [x [Hx Hr]].
+  apply fixrow_shape in Hr. destruct Hr as [_ [Hfile Hlook]]. rewrite Hf in Hfile.
+  cbn [fixed tree]. rewrite lookup_fixed.
+  - apply Hlook. symmetry. exact Hfile.
+  - apply In_filenames. exists x. split; [exact Hx|]. symmetry. exact Hfile.
+Qed.
+
+(* a row is undamaged when it has no file or its file exists with the recorded size *)
+Definition row_ok (s : state) (r : row) : Prop :=
+  match r_file r with None => True | Some f => lookup_file (tree s) f = Some (r_size r) end.
+Definition file_owned (s : state) (x : file) : Prop := f_db x = true \/ In (f_id x) (filenames s).
+
+(* C17_preserves *)
+Lemma fixed_preserves rep s : rows_unique s ->
+  (forall r, In r (rows s) -> row_ok s r ->
+     In r (rows (fixed rep s)) /\
+     forall f, r_file r = Some f -> lookup_file (tree (fixed rep s)) f = lookup_file (tree s) f) /\
+  (forall x, In x (all_files (tree s)) -> file_owned s x -> In x (all_files (tree (fixed rep s)))).
+Proof.
+  intros Hu. split.
+  - intros r Hr Hok. split.
+    + rewrite (fixed_rows rep s Hu). apply in_flat_map. exists r. split; [exact Hr|].
+      unfold row_ok in Hok. unfold fixrow. destruct (r_file r) as [f|]; [|left; reflexivity].
+      rewrite Hok, Z.eqb_refl. left. reflexivity.
+    + intros f Hf. cbn [fixed tree]. apply lookup_fixed. apply In_filenames. exists r. split; assumption.
+  - intros x Hx Hown. cbn [fixed tree]. rewrite fixed_all_files. apply filter_In. split; [exact Hx|].
+    rewrite unknown_file_spec. destruct Hown as [Hd|Hk].
+    + rewrite Hd. cbn [negb]. rewrite andb_false_r. reflexivity.
+    + apply existsb_Zeqb_In in Hk. rewrite Hk. reflexivity.
+Qed.
+
+(* C17_counters_fixed *)
+Lemma fixed_counters rep s : s_count (fixed rep s) = row_count (fixed rep s) /\ s_size (fixed rep s) = row_sum (fixed rep s).
+Proof. split; reflexivity. Qed.
+
+(* ---------------- the second check ---------------- *)
+Lemma flat_map_nil {A B} (f : A -> list B) l : (forall x, In x l -> f x = []) -> flat_map f l = [].
+Proof.
+  induction l as [|a l IH]; intros H; cbn [flat_map]; [reflexivity|].
+  rewrite (H a (or_introl eq_refl)), IH; [reflexivity|]. intros x Hx. apply H. right. exact Hx.
+Qed.
+
+Lemma find_some_of_in {A} (p : A -> bool) l x : In x l -> p x = true -> find p l <> None.
+Proof.
+  induction l as [|a l IH]; intros Hx Hp; [destruct Hx|]. cbn [find]. destruct (p a) eqn:Ha; [discriminate|].
+  destruct Hx as [Hx|Hx]; [subst; rewrite Hp in Ha; discriminate|]. apply IH; assumption.
+Qed.
+
+Lemma second_rows_clean rep s : rows_unique s ->
+  flat_map (warn_row (tree (fixed rep s))) (rows (fixed rep s)) = [].
+Proof.
+  intros Hu. apply flat_map_nil. intros r Hr. unfold warn_row. destruct (r_file r) as [f|] eqn:Hf; [|reflexivity].
+  rewrite (fixed_readable rep s Hu r f Hr Hf), Z.eqb_refl. reflexivity.
+Qed.
+
+Lemma second_unknown_clean rep s : rows_unique s ->
+  unknown_warns (filenames (fixed rep s)) (all_files (tree (fixed rep s))) = [].
+Proof.
+  intros Hu. unfold unknown_warns.
+  assert (E : filter (unknown_file (filenames (fixed rep s))) (all_files (tree (fixed rep s))) = []); [|rewrite E; reflexivity].
+  rewrite filter_as_flat_map. apply flat_map_nil. intros x Hx.
+  cbn [fixed tree] in Hx. rewrite fixed_all_files in Hx. apply filter_In in Hx. destruct Hx as [Hx Hk].
+  rewrite unknown_file_spec in Hk. rewrite unknown_file_spec.
+  destruct (f_db x) eqn:Hd; [cbn [negb]; rewrite andb_false_r; reflexivity|].
+  cbn [negb] in Hk. rewrite andb_true_r, negb_involutive in Hk. apply existsb_Zeqb_In in Hk.
+  apply In_filenames in Hk. destruct Hk as [r [Hr Hf]].
+  assert (Hin : In (f_id x) (filenames (fixed rep s))).
+  { apply In_filenames. rewrite (fixed_rows rep s Hu).
+    assert (Hl : lookup_file (tree s) (f_id x) <> None).
+    { unfold lookup_file. destruct (find (fun y => f_id y =? f_id x) (all_files (tree s))) eqn:Hfind; [discriminate|].
+      exfalso. apply (find_some_of_in (fun y => f_id y =? f_id x) (all_files (tree s)) x Hx (Z.eqb_refl _)). exact Hfind. }
+    destruct (fixrow (tree s) r) as [|r' l] eqn:Hfix.
+    - exfalso. unfold fixrow in Hfix. rewrite Hf in Hfix. destruct (lookup_file (tree s) (f_id x)); [|apply Hl; reflexivity].
+      destruct (r_size r =? z); discriminate.
+    - exists r'. assert (Hr' : In r' (fixrow (tree s) r)) by (rewrite Hfix; left; reflexivity). split.
+      + apply in_flat_map. exists r. split; assumption.
+      + apply fixrow_shape in Hr'. destruct Hr' as [_ [Hfile _]]. rewrite Hfile. exact Hf. }
+  apply existsb_Zeqb_In in Hin. rewrite Hin. reflexivity.
+Qed.
+
+(* first-level directories that have sub-directories but keep nothing at or below them *)
+Definition cascades (known : list Z) (d : dir1) : bool :=
+  negb (is_nil (d1_subs d)) && is_nil (kept known (d1_files d))
+  && forallb (fun x => is_nil (kept known (d2_files x))) (d1_subs d).
+Definition cascade_dirs (s : state) : list Z := map d1_id (filter (cascades (filenames s)) (root_subs (tree s))).
+
+Definition nonempty2 (x : dir2) : bool := negb (is_nil (d2_files x)).
+
+Lemma keep_empty_d2 rep l : removes_dir rep = true -> keep (map (empty_d2 rep true) l) = filter nonempty2 l.
+Proof.
+  intros Hr. unfold keep. induction l as [|a l IH]; cbn [map flat_map filter]; [reflexivity|].
+  rewrite IH. unfold empty_d2, nonempty2. rewrite bridge_g_empty_dir, bridge_g_fix_empty, Hr. cbn [is_nil andb].
+  destruct (is_nil (d2_files a)); reflexivity.
+Qed.
+Lemma e2_filter_nonempty l : flat_map e2 (filter nonempty2 l) = [].
+Proof.
+  induction l as [|a l IH]; cbn [filter]; [reflexivity|]. unfold nonempty2 at 1.
+  destruct (is_nil (d2_files a)) eqn:He; cbn [negb]; [exact IH|]. cbn [flat_map]. rewrite IH. unfold e2. rewrite He. reflexivity.
+Qed.
+Lemma is_nil_filter_nonempty l : is_nil (filter nonempty2 l) = forallb (fun x => is_nil (d2_files x)) l.
+Proof.
+  induction l as [|a l IH]; cbn [filter forallb]; [reflexivity|]. unfold nonempty2 at 1.
+  destruct (is_nil (d2_files a)); cbn [negb andb]; [exact IH|reflexivity].
+Qed.
+
+Definition residual (rep : fs_repair) (d : dir1) : list Z :=
+  if prunes rep then []
+  else if negb (is_nil (d1_subs d)) && is_nil (d1_files d) && forallb (fun x => is_nil (d2_files x)) (d1_subs d)
+       then [d1_id d] else [].
+
+Lemma empty_d1_residual rep d : removes_dir rep = true ->
+  flat_map e1 (match fst (empty_d1 rep true d) with Some x => [x] | None => [] end) = residual rep d.
+Proof.
+  intros Hr. unfold empty_d1, residual. cbn zeta. rewrite bridge_g_empty_dir, !bridge_g_fix_empty, Hr, (keep_empty_d2 rep _ Hr).
+  cbn [andb]. destruct (is_nil (d1_subs d)) eqn:Hs; destruct (is_nil (d1_files d)) eqn:Hf; cbn [andb negb fst flat_map].
+  - destruct (prunes rep); reflexivity.
+  - apply is_nil_true in Hs. rewrite Hs. cbn [filter is_nil andb flat_map app]. rewrite !andb_false_r.
+    unfold e1. cbn [d1_subs d1_files is_nil andb flat_map]. rewrite Hf. destruct (prunes rep); reflexivity.
+  - rewrite andb_true_r, is_nil_filter_nonempty.
+    destruct (forallb (fun x => is_nil (d2_files x)) (d1_subs d)) eqn:Ha; rewrite ?andb_true_r, ?andb_false_r.
+    + destruct (prunes rep); [reflexivity|]. cbn [flat_map]. unfold e1. cbn [d1_subs d1_files].
+      rewrite is_nil_filter_nonempty, Ha, Hf. reflexivity.
+    + cbn [flat_map]. unfold e1. cbn [d1_subs d1_files]. rewrite is_nil_filter_nonempty, Ha. cbn [andb].
+      rewrite e2_filter_nonempty. destruct (prunes rep); reflexivity.
+  - rewrite !andb_false_r. cbn [flat_map]. unfold e1. cbn [d1_subs d1_files]. rewrite Hf, andb_false_r.
+    rewrite e2_filter_nonempty. destruct (prunes rep); reflexivity.
+Qed.
+
+Lemma forallb_map' {A B} (f : A -> B) (p : B -> bool) l : forallb p (map f l) = forallb (fun x => p (f x)) l.
+Proof. induction l as [|a l IH]; cbn [map forallb]; [reflexivity|]. rewrite IH. reflexivity. Qed.
+Lemma is_nil_map {A B} (f : A -> B) l : is_nil (map f l) = is_nil l.
+Proof. destruct l; reflexivity. Qed.
+
+Lemma residual_clean known d :
+  residual FsRmdir (clean_d1 known d) = if cascades known d then [d1_id d] else [].
+Proof.
+  unfold residual, cascades, clean_d1. cbn [prunes d1_id d1_files d1_subs].
+  rewrite is_nil_map, forallb_map'. reflexivity.
+Qed.
+
+Lemma second_empty_dirs rep s : removes_dir rep = true ->
+  empty_dirs (tree (fixed rep s)) = flat_map (fun d => residual rep (clean_d1 (filenames s) d)) (root_subs (tree s)).
+Proof.
+  intros Hr. cbn [fixed tree]. unfold fixed_tree, empty_dirs, pass_empty, clean_fs. cbn [fst root_subs]. unfold keep.
+  induction (root_subs (tree s)) as [|a l IH]; cbn [map flat_map]; [reflexivity|].
+  rewrite flat_map_app', IH, (empty_d1_residual rep _ Hr). reflexivity.
+Qed.
+
+Lemma second_counters_clean rep s : count_warn (fixed rep s) = [] /\ size_warn (fixed rep s) = [].
+Proof.
+  unfold count_warn, size_warn. destruct (fixed_counters rep s) as [H1 H2]. rewrite H1, H2, !Z.eqb_refl. split; reflexivity.
+Qed.
+
+Lemma second_report rep s : rows_unique s -> removes_dir rep = true ->
+  report (fixed rep s) = map WEmptyDir (flat_map (fun d => residual rep (clean_d1 (filenames s) d)) (root_subs (tree s))).
+Proof.
+  intros Hu Hr. unfold report. destruct (second_counters_clean rep s) as [H1 H2].
+  rewrite (second_rows_clean rep s Hu), (second_unknown_clean rep s Hu), H1, H2, (second_empty_dirs rep s Hr), !app_nil_r.
+  reflexivity.
+Qed.
+
+(* what the second check reports, exactly *)
+Lemma second_check s : rows_unique s ->
+  snd (check1 (fst (check1 s true)) false) = map WEmptyDir (cascade_dirs s).
+Proof.
+  intros Hu. rewrite check1_true. cbn [fst]. rewrite check1_false. cbn [snd].
+  rewrite (second_report FsRmdir s Hu eq_refl). f_equal. unfold cascade_dirs.
+  induction (root_subs (tree s)) as [|a l IH]; cbn [flat_map filter map]; [reflexivity|].
+  rewrite residual_clean, IH. destruct (cascades (filenames s) a); reflexivity.
+Qed.
+
+(* C17_converges_partial, in its strongest form: an equivalence *)
+Lemma second_check_clean_iff s : rows_unique s ->
+  (snd (check1 (fst (check1 s true)) false) = [] <->
+   forall d, In d (root_subs (tree s)) -> cascades (filenames s) d = false).
+Proof.
+  intros Hu. rewrite (second_check s Hu). unfold cascade_dirs. split.
+  - intros H d Hd. destruct (cascades (filenames s) d) eqn:Hc; [|reflexivity]. exfalso.
+    assert (Hin : In d (filter (cascades (filenames s)) (root_subs (tree s)))) by (apply filter_In; split; assumption).
+    destruct (filter (cascades (filenames s)) (root_subs (tree s))); [destruct Hin|discriminate].
+  - intros H. assert (E : filter (cascades (filenames s)) (root_subs (tree s)) = []); [|rewrite E; reflexivity].
+    rewrite filter_as_flat_map. apply flat_map_nil. intros d Hd. rewrite (H d Hd). reflexivity.
+Qed.
+
+(* with os.removedirs in place of os.rmdir (the proposed patch) the second check is always clean *)
+Lemma second_check_patched s : rows_unique s ->
+  snd (check_with FsRemovedirs (fst (check_with FsRemovedirs s true)) false) = [].
+Proof.
+  intros Hu. rewrite check_with_true. cbn [fst]. rewrite check_with_false. cbn [snd].
+  rewrite (second_report FsRemovedirs s Hu eq_refl). rewrite flat_map_nil; [reflexivity|]. intros d _. reflexivity.
+Qed.
+
+(* ---------------- what is reported ---------------- *)
+(* the inconsistencies of a state, stated without reference to check() *)
+Inductive damage (s : state) : warning -> Prop :=
+| DNotFound r f : In r (rows s) -> r_file r = Some f -> lookup_file (tree s) f = None -> damage s (WNotFound f)
+| DWrongSize r f real : In r (rows s) -> r_file r = Some f -> lookup_file (tree s) f = Some real -> real <> r_size r ->
+    damage s (WWrongSize f real (r_size r))
+| DUnknown x : In x (all_files (tree s)) -> f_db x = false -> (forall r, In r (rows s) -> r_file r <> Some (f_id x)) ->
+    damage s (WUnknown (f_id x))
+| DEmpty1 d : In d (root_subs (tree s)) -> d1_subs d = [] -> d1_files d = [] -> damage s (WEmptyDir (d1_id d))
+| DEmpty2 d d' : In d (root_subs (tree s)) -> In d' (d1_subs d) -> d2_files d' = [] -> damage s (WEmptyDir (d2_id d'))
+| DCount : s_count s <> row_count s -> damage s (WCount (s_count s) (row_count s))
+| DSize : s_size s <> row_sum s -> damage s (WSize (s_size s) (row_sum s)).
+
+Lemma in_warn_rows s w :
+  In w (flat_map (warn_row (tree s)) (rows s)) <->
+  (exists r f, In r (rows s) /\ r_file r = Some f /\ lookup_file (tree s) f = None /\ w = WNotFound f) \/
+  (exists r f real, In r (rows s) /\ r_file r = Some f /\ lookup_file (tree s) f = Some real /\ real <> r_size r
+                    /\ w = WWrongSize f real (r_size r)).
+Proof.
+  rewrite in_flat_map. split.
+  - intros [r [Hr Hw]]. unfold warn_row in Hw. destruct (r_file r) as [f|] eqn:Hf; [|destruct Hw].
+    destruct (lookup_file (tree s) f) as [real|] eqn:Hl.
+    + destruct (r_size r =? real) eqn:He; [destruct Hw|]. destruct Hw as [Hw|[]]. right. exists r, f, real.
+      apply Z.eqb_neq in He. repeat split; try assumption; [|symmetry; exact Hw]. intros E. apply He. symmetry. exact E.
+    + destruct Hw as [Hw|[]]. left. exists r, f. repeat split; try assumption. symmetry. exact Hw.
+  - intros [[r [f [Hr [Hf [Hl Hw]]]]]|[r [f [real [Hr [Hf [Hl [Hne Hw]]]]]]]]; exists r; (split; [exact Hr|]);
+      unfold warn_row; rewrite Hf, Hl.
+    + left. symmetry. exact Hw.
+    + destruct (r_size r =? real) eqn:He; [apply Z.eqb_eq in He; exfalso; apply Hne; symmetry; exact He|].
+      left. symmetry. exact Hw.
+Qed.
+
+Lemma in_unknown_warns known l w :
+  In w (unknown_warns known l) <-> exists x, In x l /\ unknown_file known x = true /\ w = WUnknown (f_id x).
+Proof.
+  unfold unknown_warns. rewrite in_map_iff. split.
+  - intros [x [Hw Hx]]. apply filter_In in Hx. exists x. repeat split; [apply Hx|apply Hx|symmetry; exact Hw].
+  - intros [x [Hx [Hu Hw]]]. exists x. split; [symmetry; exact Hw|apply filter_In; split; assumption].
+Qed.
+
+Lemma unknown_file_true s x :
+  unknown_file (filenames s) x = true <-> f_db x = false /\ (forall r, In r (rows s) -> r_file r <> Some (f_id x)).
+Proof.
+  rewrite unknown_file_spec, andb_true_iff, !negb_true_iff. split.
+  - intros [H1 H2]. split; [exact H2|]. intros r Hr Hf.
+    assert (E : existsb (Z.eqb (f_id x)) (filenames s) = true).
+    { apply existsb_Zeqb_In. apply In_filenames. exists r. split; assumption. }
+    rewrite E in H1. discriminate.
+  - intros [H1 H2]. split; [|exact H1]. destruct (existsb (Z.eqb (f_id x)) (filenames s)) eqn:E; [|reflexivity].
+    apply existsb_Zeqb_In in E. apply In_filenames in E. destruct E as [r [Hr Hf]]. exfalso. apply (H2 r Hr Hf).
+Qed.
+
+Lemma in_empty_dirs t z :
+  In z (empty_dirs t) <->
+  (exists d, In d (root_subs t) /\ d1_subs d = [] /\ d1_files d = [] /\ z = d1_id d) \/
+  (exists d d', In d (root_subs t) /\ In d' (d1_subs d) /\ d2_files d' = [] /\ z = d2_id d').
+Proof.
+  unfold empty_dirs. rewrite in_flat_map. split.
+  - intros [d [Hd Hz]]. unfold e1 in Hz. destruct (is_nil (d1_subs d) && is_nil (d1_files d)) eqn:He.
+    + apply andb_prop in He. destruct He as [H1 H2]. destruct Hz as [Hz|[]]. left. exists d.
+      repeat split; [exact Hd|apply is_nil_true; exact H1|apply is_nil_true; exact H2|symmetry; exact Hz].
+    + apply in_flat_map in Hz. destruct Hz as [d' [Hd' Hz]]. unfold e2 in Hz.
+      destruct (is_nil (d2_files d')) eqn:H2; [|destruct Hz]. destruct Hz as [Hz|[]]. right. exists d, d'.
+      repeat split; [exact Hd|exact Hd'|apply is_nil_true; exact H2|symmetry; exact Hz].
+  - intros [[d [Hd [H1 [H2 Hz]]]]|[d [d' [Hd [Hd' [H2 Hz]]]]]]; exists d; (split; [exact Hd|]); unfold e1.
+    + rewrite H1, H2. left. symmetry. exact Hz.
+    + destruct (d1_subs d) as [|a l] eqn:Hs; [destruct Hd'|]. cbn [is_nil andb]. apply in_flat_map. exists d'.
+      split; [exact Hd'|]. unfold e2. rewrite H2. left. symmetry. exact Hz.
+Qed.
+
+(* C17_reports_all, plain check: exactly the inconsistencies of the state *)
+Lemma report_exact s w : In w (report s) <-> damage s w.
+Proof.
+  unfold report. rewrite !in_app_iff, in_warn_rows, in_unknown_warns, in_map_iff. split.
+  - intros [[H|H]|[H|[H|[H|H]]]].
+    + destruct H as [r [f [Hr [Hf [Hl Hw]]]]]. subst w. apply (DNotFound s r f); assumption.
+    + destruct H as [r [f [real [Hr [Hf [Hl [Hne Hw]]]]]]]. subst w. apply (DWrongSize s r f real); assumption.
+    + destruct H as [x [Hx [Hu Hw]]]. subst w. apply unknown_file_true in Hu. destruct Hu. apply DUnknown; assumption.
+    + destruct H as [z [Hw Hz]]. subst w. apply in_empty_dirs in Hz.
+      destruct Hz as [[d [Hd [H1 [H2 Hz]]]]|[d [d' [Hd [Hd' [H2 Hz]]]]]]; subst z.
+      * apply DEmpty1; assumption.
+      * apply (DEmpty2 s d d'); assumption.
+    + unfold count_warn in H. destruct (s_count s =? row_count s) eqn:He; [destruct H|]. destruct H as [H|[]]. subst w.
+      apply DCount. apply Z.eqb_neq. exact He.
+    + unfold size_warn in H. destruct (s_size s =? row_sum s) eqn:He; [destruct H|]. destruct H as [H|[]]. subst w.
+      apply DSize. apply Z.eqb_neq. exact He.
+  - intros H. destruct H as [r f Hr Hf Hl|r f real Hr Hf Hl Hne|x Hx Hd Hn|d Hd H1 H2|d d' Hd Hd' H2|Hc|Hs].
+    + left. left. exists r, f. repeat split; assumption.
+    + left. right. exists r, f, real. repeat split; assumption.
+    + right. left. exists x. repeat split; [exact Hx|]. apply unknown_file_true. split; assumption.
+    + right. right. left. exists (d1_id d). split; [reflexivity|]. apply in_empty_dirs. left. exists d. repeat split; assumption.
+    + right. right. left. exists (d2_id d'). split; [reflexivity|]. apply in_empty_dirs. right. exists d, d'. repeat split; assumption.
+    + right. right. right. left. unfold count_warn. apply Z.eqb_neq in Hc. rewrite Hc. left. reflexivity.
+    + right. right. right. right. unfold size_warn. apply Z.eqb_neq in Hs. rewrite Hs. left. reflexivity.
+Qed.
+
+(* directories that hold nothing but files the repair removes: the fixing run reports them as empty too *)
+Inductive emptied (s : state) : Z -> Prop :=
+| Em1 d : In d (root_subs (tree s)) -> d1_subs d = [] -> d1_files d <> [] ->
+    (forall x, In x (d1_files d) -> unknown_file (filenames s) x = true) -> emptied s (d1_id d)
+| Em2 d d' : In d (root_subs (tree s)) -> In d' (d1_subs d) -> d2_files d' <> [] ->
+    (forall x, In x (d2_files d') -> unknown_file (filenames s) x = true) -> emptied s (d2_id d').
+
+Lemma kept_nil known l : kept known l = [] -> forall x, In x l -> unknown_file known x = true.
+Proof.
+  unfold kept. induction l as [|a l IH]; intros H x Hx; [destruct Hx|]. cbn [filter] in H.
+  destruct (unknown_file known a) eqn:Ha; cbn [negb] in H; [|discriminate].
+  destruct Hx as [Hx|Hx]; [subst; exact Ha|apply IH; assumption].
+Qed.
+Lemma kept_of_nil known l : l = [] -> kept known l = [].
+Proof. intros H. subst. reflexivity. Qed.
+
+Lemma empty_dirs_clean_incl s z : In z (empty_dirs (tree s)) -> In z (empty_dirs (clean_fs (filenames s) (tree s))).
+Proof.
+  rewrite !in_empty_dirs. unfold clean_fs. cbn [root_subs].
+  intros [[d [Hd [H1 [H2 Hz]]]]|[d [d' [Hd [Hd' [H2 Hz]]]]]].
+  - left. exists (clean_d1 (filenames s) d). split; [apply in_map; exact Hd|]. unfold clean_d1. cbn [d1_subs d1_files d1_id].
+    rewrite H1, H2. repeat split. exact Hz.
+  - right. exists (clean_d1 (filenames s) d), (clean_d2 (filenames s) d'). split; [apply in_map; exact Hd|].
+    split; [unfold clean_d1; cbn [d1_subs]; apply (in_map (clean_d2 (filenames s))); exact Hd'|].
+    unfold clean_d2. cbn [d2_files d2_id]. rewrite H2. split; [reflexivity|exact Hz].
+Qed.
+
+Lemma empty_dirs_clean_only s z :
+  In z (empty_dirs (clean_fs (filenames s) (tree s))) -> In z (empty_dirs (tree s)) \/ emptied s z.
+Proof.
+  rewrite !in_empty_dirs. unfold clean_fs. cbn [root_subs].
+  intros [[c [Hc [H1 [H2 Hz]]]]|[c [c' [Hc [Hc' [H2 Hz]]]]]].
+  - apply in_map_iff in Hc. destruct Hc as [d [E Hd]]. subst c. unfold clean_d1 in H1, H2, Hz. cbn [d1_subs d1_files d1_id] in *.
+    assert (Hs : d1_subs d = []) by (destruct (d1_subs d); [reflexivity|discriminate]).
+    destruct (d1_files d) as [|a l] eqn:Hf.
+    + left. left. exists d. repeat split; assumption.
+    + right. subst z. apply Em1; [exact Hd|exact Hs|rewrite Hf; discriminate|]. rewrite Hf. apply kept_nil. exact H2.
+  - apply in_map_iff in Hc. destruct Hc as [d [E Hd]]. subst c. unfold clean_d1 in Hc'. cbn [d1_subs] in Hc'.
+    apply in_map_iff in Hc'. destruct Hc' as [d' [E Hd']]. subst c'. unfold clean_d2 in H2, Hz. cbn [d2_files d2_id] in *.
+    destruct (d2_files d') as [|a l] eqn:Hf.
+    + left. right. exists d, d'. repeat split; assumption.
+    + right. subst z. apply (Em2 s d d'); [exact Hd|exact Hd'|rewrite Hf; discriminate|]. rewrite Hf. apply kept_nil. exact H2.
+Qed.
+
+Lemma count_warn_key s s' : cdiff s' = cdiff s -> map wkey (count_warn s') = map wkey (count_warn s).
+Proof.
+  unfold cdiff, count_warn. intros H.
+  destruct (s_count s' =? row_count s') eqn:E1; destruct (s_count s =? row_count s) eqn:E2; try reflexivity;
+    rewrite ?Z.eqb_eq, ?Z.eqb_neq in *; lia.
+Qed.
+Lemma size_warn_key s s' : sdiff s' = sdiff s -> map wkey (size_warn s') = map wkey (size_warn s).
+Proof.
+  unfold sdiff, size_warn. intros H.
+  destruct (s_size s' =? row_sum s') eqn:E1; destruct (s_size s =? row_sum s) eqn:E2; try reflexivity;
+    rewrite ?Z.eqb_eq, ?Z.eqb_neq in *; lia.
+Qed.
+
+(* C17_reports_all, fixing check, and the "same inconsistencies" clause of C17_plain_pure:
+   compared by (kind, name), the fixing run reports what the plain run reports plus the directories
+   its own removals emptied *)
+Lemma report_fix_keys s k :
+  In k (map wkey (report_fix s)) <->
+  In k (map wkey (report s)) \/ exists z, k = wkey (WEmptyDir z) /\ emptied s z.
+Proof.
+  unfold report_fix, report. rewrite !map_app, !in_app_iff.
+  destruct (pass_rows_diffs true s) as [Hc Hs]. fold (after_rows s) in Hc, Hs.
+  rewrite (count_warn_key s (after_rows s) Hc), (size_warn_key s (after_rows s) Hs). split.
+  - intros [H|[H|[H|H]]].
+    + left. left. exact H.
+    + left. right. left. exact H.
+    + apply in_map_iff in H. destruct H as [w [Hk Hw]]. apply in_map_iff in Hw. destruct Hw as [z [Hw Hz]]. subst w k.
+      apply empty_dirs_clean_only in Hz. destruct Hz as [Hz|Hz].
+      * left. right. right. left. apply in_map. apply in_map. exact Hz.
+      * right. exists z. split; [reflexivity|exact Hz].
+    + left. right. right. right. exact H.
+  - intros [[H|[H|[H|H]]]|[z [Hk Hz]]].
+    + left. exact H.
+    + right. left. exact H.
+    + right. right. left. apply in_map_iff in H. destruct H as [w [Hk Hw]]. apply in_map_iff in Hw. destruct Hw as [z [Hw Hz]].
+      subst w k. apply in_map. apply in_map. apply empty_dirs_clean_incl. exact Hz.
+    + right. right. right. exact H.
+    + right. right. left. subst k. apply in_map. apply in_map. apply in_empty_dirs.
+      destruct Hz as [d Hd H1 H2 H3|d d' Hd Hd' H2 H3].
+      * left. exists (clean_d1 (filenames s) d). unfold clean_fs, clean_d1. cbn [root_subs d1_subs d1_files d1_id].
+        split; [apply (in_map (clean_d1 (filenames s))) in Hd; exact Hd|]. rewrite H1. repeat split.
+        unfold kept. rewrite filter_as_flat_map. apply flat_map_nil. intros x Hx. rewrite (H3 x Hx). reflexivity.
+      * right. exists (clean_d1 (filenames s) d), (clean_d2 (filenames s) d'). unfold clean_fs. cbn [root_subs].
+        split; [apply in_map; exact Hd|].
+        split; [unfold clean_d1; cbn [d1_subs]; apply (in_map (clean_d2 (filenames s))); exact Hd'|].
+        unfold clean_d2. cbn [d2_files d2_id]. split; [|reflexivity].
+        unfold kept. rewrite filter_as_flat_map. apply flat_map_nil. intros x Hx. rewrite (H3 x Hx). reflexivity.
+Qed.
+
+(* ---------------- FanoutCache.check ---------------- *)
+Lemma check_fanout_spec ss fx :
+  check_fanout ss fx = (map (fun s => fst (check1 s fx)) ss, flat_map (fun s => snd (check1 s fx)) ss).
+Proof.
+  unfold check_fanout. destruct bridge_fanout_check as [H1 H2]. rewrite H1, H2. rewrite map_map, flat_map_map. reflexivity.
+Qed.
+
+(* ---------------- the witness of finding D16 ---------------- *)
+(* one intact file-backed item (row 1 -> file 10 of 10 bytes in 1/2), a stray file 20 in 3/4, an empty
+   directory 6 inside 5; counters consistent *)
+Definition d16_state : state :=
+  {| rows := [ {| r_id := 1; r_size := 10; r_file := Some 10 |} ]; s_count := 1; s_size := 10;
+     tree := {| root_files := [];
+                root_subs := [ {| d1_id := 1; d1_files := []; d1_subs := [ {| d2_id := 2; d2_files := [ {| f_id := 10; f_size := 10; f_db := false |} ] |} ] |};
+                               {| d1_id := 3; d1_files := []; d1_subs := [ {| d2_id := 4; d2_files := [ {| f_id := 20; f_size := 1; f_db := false |} ] |} ] |};
+                               {| d1_id := 5; d1_files := []; d1_subs := [ {| d2_id := 6; d2_files := [] |} ] |} ] |} |}.
+
+Lemma d16_unique : rows_unique d16_state.
+Proof. unfold rows_unique. cbn. constructor; [intros []|constructor]. Qed.
+
+Lemma d16_first : snd (check1 d16_state true) = [WUnknown 20; WEmptyDir 4; WEmptyDir 6].
+Proof. vm_compute. reflexivity. Qed.
+
+Lemma d16_second : snd (check1 (fst (check1 d16_state true)) false) = [WEmptyDir 3; WEmptyDir 5].
+Proof. vm_compute. reflexivity. Qed.
+
+Lemma converges_refuted : exists s, rows_unique s /\ snd (check1 (fst (check1 s true)) false) <> [].
+Proof. exists d16_state. split; [exact d16_unique|]. rewrite d16_second. discriminate. Qed.
+
+(* the hypotheses of the positive statements are satisfiable by damaged states *)
+Definition ok_state : state :=
+  {| rows := [ {| r_id := 1; r_size := 10; r_file := Some 10 |}; {| r_id := 2; r_size := 7; r_file := Some 11 |};
+               {| r_id := 3; r_size := 0; r_file := None |}; {| r_id := 4; r_size := 3; r_file := Some 12 |} ];
+     s_count := 9; s_size := 1;
+     tree := {| root_files := [ {| f_id := 30; f_size := 1; f_db := false |} ];
+                root_subs := [ {| d1_id := 1; d1_files := [ {| f_id := 31; f_size := 2; f_db := false |} ];
+                                  d1_subs := [ {| d2_id := 2; d2_files := [ {| f_id := 10; f_size := 10; f_db := false |};
+                                                                              {| f_id := 11; f_size := 5; f_db := false |};
+                                                                              {| f_id := 32; f_size := 5; f_db := false |} ] |};
+                                               {| d2_id := 3; d2_files := [] |} ] |};
+                               {| d1_id := 4; d1_files := []; d1_subs := [] |} ] |} |}.
+Lemma ok_state_example :
+  rows_unique ok_state /\ (forall d, In d (root_subs (tree ok_state)) -> cascades (filenames ok_state) d = false)
+  /\ length (snd (check1 ok_state true)) = 9%nat /\ snd (check1 (fst (check1 ok_state true)) false) = [].
+Proof.
+  split; [|split; [|split]].
+  - unfold rows_unique. cbn. repeat constructor; cbn; intuition discriminate.
+  - intros d [H|[H|[]]]; subst d; vm_compute; reflexivity.
+  - vm_compute. reflexivity.
+  - vm_compute. reflexivity.
+Qed.
+
+(* ---------------- the statements of props/C17.v, about check1 itself ---------------- *)
+Lemma check1_plain_pure s : fst (check1 s false) = s.
+Proof. rewrite check1_false. reflexivity. Qed.
+Lemma check1_reports_all s w : In w (snd (check1 s false)) <-> damage s w.
+Proof. rewrite check1_false. exact (report_exact s w). Qed.
+Lemma check1_fix_reports_same s k :
+  In k (map wkey (snd (check1 s true))) <->
+  In k (map wkey (snd (check1 s false))) \/ exists z, k = wkey (WEmptyDir z) /\ emptied s z.
+Proof. rewrite check1_true, check1_false. exact (report_fix_keys s k). Qed.
+Lemma check1_readable s : rows_unique s ->
+  forall r f, In r (rows (fst (check1 s true))) -> r_file r = Some f ->
+  lookup_file (tree (fst (check1 s true))) f = Some (r_size r).
+Proof. intros Hu. rewrite check1_true. exact (fixed_readable FsRmdir s Hu). Qed.
+Lemma check1_preserves s : rows_unique s ->
+  (forall r, In r (rows s) -> row_ok s r ->
+     In r (rows (fst (check1 s true))) /\
+     forall f, r_file r = Some f -> lookup_file (tree (fst (check1 s true))) f = lookup_file (tree s) f) /\
+  (forall x, In x (all_files (tree s)) -> file_owned s x -> In x (all_files (tree (fst (check1 s true))))).
+Proof. intros Hu. rewrite check1_true. exact (fixed_preserves FsRmdir s Hu). Qed.
+Lemma check1_counters_fixed s :
+  s_count (fst (check1 s true)) = row_count (fst (check1 s true)) /\
+  s_size (fst (check1 s true)) = row_sum (fst (check1 s true)).
+Proof. rewrite check1_true. exact (fixed_counters FsRmdir s). Qed.
